@@ -196,3 +196,6 @@ func (u *Universe) RandomTerm(r *Rand) Term {
 		return t
 	}
 }
+
+// MixCase flips the case of about half the letters of s.
+func MixCase(r *Rand, s string) string { return mutateCase(s, CaseMixed, r.U64()) }
